@@ -129,7 +129,7 @@ const StallLimit = 8
 
 // StallError is returned by Render when the page-loop progress monitor fires.
 type StallError struct {
-	Kind string // "content" | "footnotes"
+	Kind string // "content" | "table-content" | "footnotes"
 	Msg  string
 }
 
@@ -146,29 +146,35 @@ func Render(o Opts) (res *Rendered, err error) {
 	defer func() { out.Warnings = done() }()
 	if !o.NoProgressMonitor {
 		var (
-			last    string
-			repeats int
+			seen      = map[string]int{} // state -> times seen in this pass of the page loop
+			lastIndex = -1
 		)
 		PageLoopIterations = 0
 		layout.VerifPageHook = func(index int, resumeAt string, oof, foot int, page *bo.PageBox) {
 			PageLoopIterations++
-			if resumeAt == "nil" && foot == 0 {
-				last, repeats = "", 0 // the loop ends here
-				return
+			if index <= lastIndex {
+				// a new pass of makeAllPages (re-pagination for page-based counters) legitimately revisits states
+				seen = map[string]int{}
 			}
-			// the page side alternates and the index grows by construction: neither is progress
+			lastIndex = index
+			if resumeAt == "nil" && foot == 0 {
+				return // the loop ends here
+			}
+			// A resume point identifies a position in the box tree and a correct layout only moves forward,
+			// so within one pass a state (resume point, pending out-of-flow and footnote counts, blank flag,
+			// page name) never comes back; the page side alternates and the index grows by construction:
+			// neither is progress.  The same state seen StallLimit times (consecutively or in a cycle of
+			// alternating states) is a loop that consumes nothing.
 			state := fmt.Sprintf("%s|%d|%d|%v|%s", resumeAt, oof, foot, page.PageType.Blank, page.PageType.Name)
-			if state == last {
-				repeats++
-				if repeats >= StallLimit {
-					kind := "content"
-					if resumeAt == "nil" {
-						kind = "footnotes"
-					}
-					panic(&StallError{kind, fmt.Sprintf("no progress for %d consecutive pages (page index %d): resume point %s, %d pending out-of-flow boxes, %d pending footnotes", repeats+1, index, resumeAt, oof, foot)})
+			seen[state]++
+			if seen[state] > StallLimit {
+				kind := "content"
+				if resumeAt == "nil" {
+					kind = "footnotes"
+				} else if breakInsideTable(page) {
+					kind = "table-content"
 				}
-			} else {
-				last, repeats = state, 0
+				panic(&StallError{kind, fmt.Sprintf("the same page-loop state was reached %d times in one pass (page index %d): resume point %s, %d pending out-of-flow boxes, %d pending footnotes", seen[state], index, resumeAt, oof, foot)})
 			}
 		}
 		defer func() {
@@ -221,4 +227,21 @@ func Render(o Opts) (res *Rendered, err error) {
 	out.Document.Write(out.Rec, backend.Fl(zoom), nil)
 	out.Rec.Finish()
 	return out, nil
+}
+
+// breakInsideTable reports whether the chain of last children of the page (where the page was cut)
+// passes through a table box.
+func breakInsideTable(page *bo.PageBox) bool {
+	var b bo.Box = page
+	for depth := 0; depth < 64; depth++ {
+		if bo.TableT.IsInstance(b) {
+			return true
+		}
+		ch := b.Box().Children
+		if len(ch) == 0 {
+			return false
+		}
+		b = ch[len(ch)-1]
+	}
+	return false
 }
